@@ -137,6 +137,19 @@ CHECKS["C11"] = dict(
          "and head-forbidden operators in formulas, multi-term elements are checked on the real code.",
     design="§6 C11", technique="Lean 4 proof (prime arithmetic for all names; acceptance = documented categories via extracted flag expressions) + exhaustive position×form grid against the real transform")
 
+CHECKS["C10"] = dict(
+    text="Theorems (Lean 4) about the transcription of TelApp.print_model, for every list of shown symbols, every horizon and "
+         "every ranking standing for clingo's symbol order: the states 0..h are printed once each in order (print_states); an atom "
+         "appears under State k iff it is a shown symbol whose last argument is the number k and whose name does not start with __ "
+         "(print_exact, print_no_aux); no atom under two states (print_state_unique); nothing dropped or duplicated (print_count); "
+         "shown terms without a time stamp are skipped and cannot make printing fail (print_untimed_skipped).  Tie (L6): the real "
+         "print_model called in-process on constructed symbol lists (numbers, strings, tuples, nested functions, classical "
+         "negation, __ names, untimed terms) byte for byte against the model.  Search: the real command line (1–3 files, stdin, "
+         "#show, -t 2, --imin/--imax) — printed State blocks of every answer against an in-process run of transform+imain on the "
+         "same inputs (which bypasses TelApp.main and print_model), so that file handling (each file starts in the initial part) "
+         "is covered.  PARTIAL: stdout buffering, file-system errors, thread scheduling are outside the model.",
+    design="§6 C10", technique="Lean 4 proof about the print_model transcription + byte-level correspondence + command-line differential search")
+
 NOT_YET = {}
 
 def main():
